@@ -322,6 +322,7 @@ class LibraryProcess:
         s.all_chunkings = params.get('all_chunkings', False)
         s.twin = params.get('twin', False)
         s.fault = params.get('fault', False)      # C10: a transport error injected at every call position of the real trace
+        s.lockstep = params.get('lockstep', False)   # schedules: one message per read (a controller that waits for each answer) and the whole stream
 
     def body_fault(s, stream, picks):
         """the real process on a library stream, whole or byte-wise, with a transport error at call index k: it must come back unchanged,
@@ -359,13 +360,17 @@ class LibraryProcess:
         picks = [ex.decide([(i, True) for i in range(len(LIBRARY))]) for _ in range(n)]
         stream = b''.join(LIBRARY[i][0] for i in picks)
         s.stream = stream
-        if len(stream) > s.max_len:
+        if len(stream) > s.max_len or (s.lockstep and any(len(LIBRARY[i][0]) > s.N for i in picks)):
             return {'viol': None, 'skipped': True}
         if s.fault:
             return s.body_fault(stream, picks)
         dev = w.new_device('T1')
         if s.all_chunkings:
             ad = ScriptAdapter(list(stream), fork_chunks=True, max_empty=0)
+        elif s.lockstep:
+            per_msg = [len(LIBRARY[i][0]) for i in picks]
+            scheds = [per_msg, [min(s.N, len(stream))] * (len(stream) // max(1, min(s.N, len(stream))) + 1)]
+            ad = ScriptAdapter(list(stream), chunks=scheds[ex.decide([(0, True), (1, True)])], tail=1)
         else:
             # schedule family: whole stream, one byte per read, every single cut, every pair of cuts
             L = len(stream)
